@@ -2,9 +2,11 @@ package main
 
 import (
 	"fmt"
+	"go/constant"
 	"go/token"
 	"go/types"
 	"sort"
+	"strings"
 
 	"golang.org/x/tools/go/ssa"
 )
@@ -293,4 +295,309 @@ func ruleWsTok(p *Prog, r *Report) {
 		r.Undecided("WSTOK", "xmp | delimiter tests", "-", "neither the attribute-value reader nor the tag-header reader was recognised (anchor lost)")
 	}
 	r.Extra("wstok_skip_helpers", len(skipHelper))
+}
+
+// ENTITY (C13): a text value is reported with its entity and character references decoded.
+//
+// A well-formed packet cannot write '&' or '<' in a value, nor the quote character that delimits an attribute value:
+// it writes "&amp;", "&lt;", "&quot;" / "&apos;" or a character reference ("&#38;", "&#x26;"). The value of the
+// property is the text these stand for: dc:title "Tom &amp; Jerry" is "Tom & Jerry", and serialise(p) of a value
+// containing '&' can only be parsed back to p by a reader that decodes it.
+//
+// Rule: every string stored into a field of a struct of package xmp (directly, or as an element appended to a
+// []string field) that is produced from value bytes - the result of a library function taking []byte and returning
+// string, or a direct string(bytes) conversion - comes from a function that looks for '&' (a byte comparison with
+// '&', a bytes/strings search for it, or the standard library's html.UnescapeString), itself or in a callee.
+// Necessary, not sufficient: what is done after finding the '&' (the table of the five names, the numeric forms)
+// is not decided.
+func ruleEntity(p *Prog, r *Report) {
+	r.Explain("ENTITY: every string that package xmp stores into a field of one of its structs (or appends to a []string field) and that is made from value bytes - by a library function from []byte to string or by a direct conversion - is produced by a function that looks for '&' (byte comparison, bytes/strings search, html.UnescapeString), itself or in a callee: the predefined entities and character references of XML stand for characters a well-formed packet cannot write literally.")
+	pk := p.SSAPkg("xmp")
+	if pk == nil {
+		r.Fatal("unresolved anchor: package xmp")
+		return
+	}
+	memo := map[*ssa.Function]bool{}
+	var testsAmp func(f *ssa.Function, d int) bool
+	testsAmp = func(f *ssa.Function, d int) bool {
+		if v, ok := memo[f]; ok {
+			return v
+		}
+		memo[f] = false
+		if f.Blocks == nil || d > 3 {
+			return false
+		}
+		found := false
+		eachInstr(f, func(_ *ssa.BasicBlock, _ int, in ssa.Instruction) {
+			switch x := in.(type) {
+			case *ssa.BinOp:
+				if x.Op == token.EQL || x.Op == token.NEQ {
+					for _, pr := range [][2]ssa.Value{{x.X, x.Y}, {x.Y, x.X}} {
+						if k, ok := constInt(pr[1]); ok && k == '&' {
+							if b, ok := pr[0].Type().Underlying().(*types.Basic); ok && (b.Kind() == types.Uint8 || b.Kind() == types.Int32) {
+								found = true
+							}
+						}
+					}
+				}
+			case ssa.CallInstruction:
+				c := x.Common()
+				sc := c.StaticCallee()
+				if sc == nil {
+					return
+				}
+				if sc.String() == "html.UnescapeString" {
+					found = true
+					return
+				}
+				if sc.Pkg != nil && (sc.Pkg.Pkg.Path() == "bytes" || sc.Pkg.Pkg.Path() == "strings") {
+					for _, a := range c.Args {
+						if k, ok := constInt(a); ok && k == '&' {
+							found = true
+						}
+						if cs, ok := a.(*ssa.Const); ok && cs.Value != nil && cs.Value.Kind() == constant.String && strings.Contains(constant.StringVal(cs.Value), "&") {
+							found = true
+						}
+					}
+					return
+				}
+				if isRepoFn(sc) && testsAmp(sc, d+1) {
+					found = true
+				}
+			}
+		})
+		memo[f] = found
+		return found
+	}
+	isBytes := func(t types.Type) bool {
+		sl, ok := t.Underlying().(*types.Slice)
+		if !ok {
+			return false
+		}
+		b, ok := sl.Elem().Underlying().(*types.Basic)
+		return ok && b.Kind() == types.Uint8
+	}
+	isString := func(t types.Type) bool {
+		b, ok := t.Underlying().(*types.Basic)
+		return ok && b.Kind() == types.String
+	}
+	// origin of a stored string: "" = not made from value bytes here; otherwise a verdict
+	var origin func(v ssa.Value, seen map[ssa.Value]bool) (made bool, bad string)
+	origin = func(v ssa.Value, seen map[ssa.Value]bool) (bool, string) {
+		if seen[v] {
+			return false, ""
+		}
+		seen[v] = true
+		switch x := v.(type) {
+		case *ssa.Convert:
+			if isString(x.Type()) && isBytes(x.X.Type()) {
+				return true, "a direct string(bytes) conversion at " + p.posStr(x.Pos())
+			}
+		case *ssa.Call:
+			sc := x.Call.StaticCallee()
+			if sc == nil || !isRepoFn(sc) || !isString(x.Type()) {
+				return false, ""
+			}
+			takesBytes := false
+			for _, a := range x.Call.Args {
+				if isBytes(a.Type()) {
+					takesBytes = true
+				}
+			}
+			if !takesBytes {
+				return false, ""
+			}
+			if testsAmp(sc, 0) {
+				return true, ""
+			}
+			return true, fnName(sc) + ", which never looks for '&'"
+		case *ssa.Phi:
+			made := false
+			for _, ed := range x.Edges {
+				m, bad := origin(ed, seen)
+				if bad != "" {
+					return true, bad
+				}
+				made = made || m
+			}
+			return made, ""
+		}
+		return false, ""
+	}
+	type res struct {
+		at  string
+		bad string
+	}
+	fields := map[string]*res{}
+	note := func(key, at string, made bool, bad string) {
+		if !made {
+			return
+		}
+		f := fields[key]
+		if f == nil {
+			f = &res{at: at}
+			fields[key] = f
+		}
+		if bad != "" && f.bad == "" {
+			f.bad, f.at = bad, at
+		}
+	}
+	for _, f := range pkgFns(pk, p) {
+		if f.Blocks == nil {
+			continue
+		}
+		eachInstr(f, func(_ *ssa.BasicBlock, _ int, in ssa.Instruction) {
+			st, ok := in.(*ssa.Store)
+			if !ok {
+				return
+			}
+			fa, ok := st.Addr.(*ssa.FieldAddr)
+			if !ok {
+				return
+			}
+			pt, ok := fa.X.Type().Underlying().(*types.Pointer)
+			if !ok {
+				return
+			}
+			nm, ok := pt.Elem().(*types.Named)
+			if !ok || nm.Obj().Pkg() == nil || nm.Obj().Pkg() != pk.Pkg {
+				return
+			}
+			key := nm.Obj().Name() + "." + fieldName(fa.X.Type(), fa.Field) + " | entity and character references are decoded"
+			at := p.posStr(instrPos(st))
+			if isString(st.Val.Type()) {
+				made, bad := origin(st.Val, map[ssa.Value]bool{})
+				note(key, at, made, bad)
+				return
+			}
+			// append(field, s...): the elements of the variadic slice
+			sl, ok := st.Val.Type().Underlying().(*types.Slice)
+			if !ok || !isString(sl.Elem()) {
+				return
+			}
+			call, ok := st.Val.(*ssa.Call)
+			if !ok {
+				return
+			}
+			if bi, ok := call.Call.Value.(*ssa.Builtin); !ok || bi.Name() != "append" || len(call.Call.Args) != 2 {
+				return
+			}
+			vs, ok := call.Call.Args[1].(*ssa.Slice)
+			if !ok {
+				return
+			}
+			al, ok := vs.X.(*ssa.Alloc)
+			if !ok {
+				return
+			}
+			for _, rf := range refs(al) {
+				ia, ok := rf.(*ssa.IndexAddr)
+				if !ok {
+					continue
+				}
+				for _, rf2 := range refs(ia) {
+					if es, ok := rf2.(*ssa.Store); ok && es.Addr == ssa.Value(ia) {
+						made, bad := origin(es.Val, map[ssa.Value]bool{})
+						note(key, at, made, bad)
+					}
+				}
+			}
+		})
+	}
+	var keys []string
+	for k := range fields {
+		keys = append(keys, k)
+	}
+	sort.Strings(keys)
+	for _, k := range keys {
+		f := fields[k]
+		if f.bad != "" {
+			r.Bad("ENTITY", "xmp."+k, f.at, "the text stored here is made from the value bytes by "+f.bad+": \"Tom &amp; Jerry\" is reported with the five characters of the entity instead of '&', and no value containing '&', '<' or its own quote character can be written so that it is read back")
+		} else {
+			r.OK("ENTITY", "xmp."+k, f.at, "made from the value bytes by a function that looks for '&'")
+		}
+	}
+	if len(keys) == 0 {
+		r.Undecided("ENTITY", "xmp | text values", "-", "no string made from value bytes is stored into a struct of package xmp (anchor lost)")
+	}
+}
+
+// MARKUP (C13): a comment is not an element.
+//
+// "<!--" opens a comment (and "<![CDATA[" a character-data section); both are well-formed XML between the elements
+// of a packet. The tag-header reader - the function that calls the tag-name scanner - looks at the byte after '<' to
+// tell an end tag ('/') and a processing instruction ('?') from a start tag. If it does not look for '!' there, the
+// text of a comment is scanned for a name ("!-- a comment --><tiff:Make" up to the first '>' after a ':'), the
+// element that follows the comment is swallowed with it and its property is lost without an error.
+//
+// Rule: in the tag-header reader the window byte that is compared with '/' and with '?' (the byte after '<') is
+// compared with '!' as well. Necessary only: how far the comment is skipped is not decided.
+func ruleMarkup(p *Prog, r *Report) {
+	r.Explain("MARKUP: in the tag-header reader of package xmp (the function that calls the tag-name scanner) the window byte compared with '/' and with '?' - the byte after '<' - is compared with '!' too: a comment (<!-- … -->) between two elements is well-formed and must not be scanned for a tag name.")
+	pk := p.SSAPkg("xmp")
+	if pk == nil {
+		r.Fatal("unresolved anchor: package xmp")
+		return
+	}
+	n := 0
+	for _, f := range pkgFns(pk, p) {
+		if f.Blocks == nil {
+			continue
+		}
+		calls := false
+		eachCall(f, func(cs ssa.CallInstruction) {
+			if sc := cs.Common().StaticCallee(); sc != nil && sc.Pkg == pk && sc.Name() == "parseTagName" {
+				calls = true
+			}
+		})
+		if !calls {
+			continue
+		}
+		// the index expression is evaluated anew for every comparison (no CSE in go/ssa): key by its rendering
+		type pos struct {
+			x   ssa.Value
+			idx string
+		}
+		sets := map[pos]map[int64]bool{}
+		at := map[pos]string{}
+		eachInstr(f, func(_ *ssa.BasicBlock, _ int, in ssa.Instruction) {
+			bo, ok := in.(*ssa.BinOp)
+			if !ok || (bo.Op != token.EQL && bo.Op != token.NEQ) {
+				return
+			}
+			k, ok := constInt(bo.Y)
+			if !ok {
+				return
+			}
+			u, ok := stripChange(bo.X).(*ssa.UnOp)
+			if !ok || u.Op != token.MUL {
+				return
+			}
+			ia, ok := u.X.(*ssa.IndexAddr)
+			if !ok {
+				return
+			}
+			ps := pos{ia.X, shortVal(ia.Index)}
+			if sets[ps] == nil {
+				sets[ps] = map[int64]bool{}
+				at[ps] = p.posStr(instrPos(bo))
+			}
+			sets[ps][k] = true
+		})
+		for ps, s := range sets {
+			if !s['/'] || !s['?'] {
+				continue
+			}
+			n++
+			key := fnName(f) + " | a comment (<!-- … -->) is told from an element"
+			if s['!'] {
+				r.OK("MARKUP", key, at[ps], "the byte after '<' is compared with '/', '?' and '!'")
+			} else {
+				r.Bad("MARKUP", key, at[ps], "the byte after '<' is compared with '/' and '?' but not with '!': the text of a comment is scanned for a tag name, the element that follows the comment is swallowed with it and its property is lost without an error")
+			}
+		}
+	}
+	if n == 0 {
+		r.Undecided("MARKUP", "xmp | tag-header reader", "-", "no function that calls the tag-name scanner compares one byte with both '/' and '?' (anchor lost)")
+	}
 }
